@@ -253,6 +253,8 @@ class Pool:
 
 
 def pool_size(tier_):
+    if os.environ.get("VERIF_POOL_N"):      # testing aid: a small pool to exercise a tier's code paths quickly
+        return int(os.environ["VERIF_POOL_N"])
     return 48 if tier_ == "quick" else 240
 
 
